@@ -74,11 +74,14 @@ class Lock:
 def grep_gate():
     """Reject forbidden vernacular anywhere in the development."""
     bad = []
-    for root, _, files in os.walk(os.path.join(COQ, "theories")):
-        for fn in files:
-            if not fn.endswith(".v"):
+    listed = [l.strip() for l in open(os.path.join(COQ, "_CoqProject")) if l.strip().endswith(".v")]
+    ext = os.path.join(COQ, "theories", "Extract")
+    listed += [os.path.join("theories", "Extract", f) for f in sorted(os.listdir(ext)) if f.endswith(".v")]
+    for rel in listed:
+        for p in [os.path.join(COQ, rel)]:
+            if not os.path.exists(p):
+                bad.append("%s: listed in _CoqProject but missing" % rel)
                 continue
-            p = os.path.join(root, fn)
             txt = open(p, errors="replace").read()
             # strip comments (non-nested approximation, nested handled by loop)
             prev = None
